@@ -520,6 +520,7 @@ WITNESSES = {
     "floor-overflow": ("eval_monad_floor", R(1e100), None),
     "match-tolerance": ("eval_dyad_match", I(100000), I(100001)),
     "reshape-symbol": ("eval_dyad_reshape", I(5), Y("x")),
+    "reshape-char-0": ("eval_dyad_reshape", I(0), C("a")),
     "reshape-nested": ("eval_dyad_reshape", lit([2]), lit([[1, 2, 3]])),
     "find-nested": ("eval_dyad_find", lit([[1, 2], [1, 1]]), I(1)),
     "find-symbol": ("eval_dyad_find", lit([Y("a"), Y("b")]), Y("a")),
@@ -531,6 +532,12 @@ WITNESSES = {
 
 def run(tier, replay=None):
     chk = Check("C01", tier)
+    # findings_parts/C01.json is this property's source of truth (known_findings.json is assembled from it and may lag)
+    part = os.path.join(VERIF, "findings_parts", "C01.json")
+    if os.path.exists(part):
+        mine = {f["id"]: f for f in json.load(open(part)) if f.get("property") == "C01"}
+        chk.known = [mine.get(f["id"], f) for f in chk.known if f["id"] in mine or True]
+        chk.known += [f for i, f in mine.items() if i not in {g["id"] for g in chk.known}]
     rng = random.Random(chk.seed)
     chk.generate(generate())
     chk.build_model()
